@@ -115,6 +115,31 @@ class Tracer:
     def _call_term(self, bb, t):
         return ("call", bb, callee(t) or "<indirect>")
 
+    def operand_at(self, bb, op, depth=0):
+        """The operand as seen by the terminator of block `bb`: like operand(), but when the operand is a plain local only
+        those of its definitions are kept whose block can reach `bb`, and plain moves are followed the same way from the
+        block of the move (a little flow sensitivity: a constant assigned on a path that was threaded past this block is
+        not a value of the switch subject here)."""
+        pl = op.get("copy") or op.get("move")
+        if pl is None or pl["p"] or not self.defs.get(pl["l"]) or (1 <= pl["l"] <= self.body.arg_count) or depth > 4:
+            return self.operand(op)
+        from rules.common import cfg_of
+        cfg = cfg_of(self.body)
+        terms = []
+        for kind, dbb, i, payload in self.defs[pl["l"]]:
+            if dbb != bb and bb not in cfg.reachable_from(dbb):
+                continue
+            if kind == "assign" and "use" in payload and ((payload["use"].get("move") or payload["use"].get("copy") or {}).get("p") == []):
+                t = self.operand_at(dbb, payload["use"], depth + 1)
+            else:
+                t = self.rvalue(payload) if kind == "assign" else self._call_term(dbb, payload) if kind == "call" else ("resume", dbb)
+            for x in (t[1] if t[0] == "phi" else [t]):
+                if x not in terms:
+                    terms.append(x)
+        if not terms:
+            return self.operand(op)
+        return terms[0] if len(terms) == 1 else ("phi", tuple(terms))
+
     def place(self, p):
         t = self.local(p["l"])
         if self.is_closure and p["l"] == 1 and p["p"]:
